@@ -4,7 +4,8 @@
 (* shared by C15 (parsers are total and accept the documented grammar) and *)
 (* C17 (event level of a textual `lvl` value).                             *)
 (*                                                                         *)
-(* A text is a sequence of one-character strings.  Trim; the first letter  *)
+(* A text is a sequence of one-character strings.  Trim (white space of any *)
+(* class, at both ends); the first letter                                  *)
 (* selects the word; following letters must spell the word (any case);     *)
 (* the first printable ASCII non-letter ends the match; a control or       *)
 (* non-ASCII character, or a letter beyond / different from the word, is   *)
@@ -20,7 +21,15 @@ IsLetter(c) == c \in LowerSet \cup UpperSet
 Up(c) == IF c \in LowerSet THEN UpperS[CHOOSE i \in 1..26 : Lower[i] = c] ELSE c
 \* the characters the models use beyond letters
 PrintableNonLetter == {"0","1","2","3","4","5","6","7","8","9","(",")"," ","-","_",":","."}
-Whitespace == {" ", "\t"}
+\* White space is what `str::trim` removes (Unicode White_Space), by class: the ASCII space; the ASCII
+\* controls that are white space - tab, line feed, carriage return ("\r\n" is two of them); non-ASCII
+\* white space - U+00A0 NO-BREAK SPACE (2 bytes), U+2003 EM SPACE (3 bytes).  Only the space is a
+\* printable ASCII character (inside a text it ends the match; the others are errors there).
+NBSP == " "
+EMSP == " "
+Whitespace == {" ", "\t", "\n", "\r", NBSP, EMSP}
+\* what may stand, independently, before and after a token: nothing, or white space of one class
+WsClasses == {<<>>, <<" ">>, <<"\t">>, <<"\n">>, <<"\r", "\n">>, <<NBSP>>, <<EMSP>>}
 
 RECURSIVE TrimL(_)
 TrimL(s) == IF s # <<>> /\ Head(s) \in Whitespace THEN TrimL(Tail(s)) ELSE s
